@@ -66,7 +66,7 @@ Positions  == {"text_unicode", "text_integer", "text_nested", "text_item", "attr
 Protocols  == {"xml", "soap11", "soap12"}
 Transports == {"wsgi", "base"}
 \* how the request is framed: plain; transport charset + encoding declaration; as the root part of a multipart/related body
-Framings   == {"plain", "charset_decl", "multipart"}
+Framings   == {"plain", "charset_decl", "multipart", "ctrl_char"}     \* ctrl_char: a C0 control character (never legal in XML 1.0) in front of the payload
 Applies(a) == /\ (a.framing = "multipart" => a.transport = "wsgi" /\ a.prot # "xml")
               /\ (a.kind \in Bombs \ {"attrs_50000"} => a.pos \in {"text_unicode", "text_nested"})       \* one bomb is enough per document
               /\ (a.kind = "attrs_50000" => a.pos = "attr_value")
@@ -87,11 +87,13 @@ Safe(a, o) ==
   /\ (a.kind \in Internal /\ a.pos # "attr_value" => ~o.expanded)     \* (attribute values: libxml2 substitutes internal entities while normalizing them)
   /\ (a.kind \in Refusable => ~o.called /\ o.fault /\ o.client)
   /\ (a.kind \in Bombs \cup BombsMore => ~o.expanded)
+  /\ (a.framing = "ctrl_char" => ~o.called /\ o.fault /\ o.client)      \* an ill-formed document is never repaired and served
   /\ o.seconds10 <= 50 /\ o.mb <= 300
 Fails(a, o) == (IF o.canary THEN {"CanaryLeaked"} ELSE {}) \cup (IF o.file_opened THEN {"FileOpened"} ELSE {})
                \cup (IF o.net_contact THEN {"NetworkContacted"} ELSE {}) \cup (IF o.escape THEN {"Escape"} ELSE {})
                \cup (IF o.expanded /\ (a.kind \in Bombs \cup BombsMore \/ (a.kind \in Internal /\ a.pos # "attr_value")) THEN {"EntityExpanded"} ELSE {})
                \cup (IF a.kind \in Refusable /\ ~(~o.called /\ o.fault /\ o.client) THEN {"BombNotRefused"} ELSE {})
                \cup (IF o.seconds10 > 50 \/ o.mb > 300 THEN {"Unbounded"} ELSE {})
+               \cup (IF a.framing = "ctrl_char" /\ ~(~o.called /\ o.fault /\ o.client) THEN {"IllFormedServed"} ELSE {})
 ASSUME DefaultsAreSafe /\ RelaxedIsNot
 =============================================================================
